@@ -49,7 +49,8 @@ def inputs_for(bpt, tier):
     )
     for second, tiny in combos:
         if True:
-            a = ("scaffold_1", pv.scaffold_rows("fasta", "scaffold_1", (big, big), ((("G", 2, "scaffold"),),), (1, 1)))
+            # (the 1-bp contig behind the last gap lies beyond the bait when the texel count is rounded down)
+            a = ("scaffold_1", pv.scaffold_rows("fasta", "scaffold_1", (big, big, 1), ((("G", 2, "scaffold"),), (("G", 1, "scaffold"),)), (1, 1, 1)))
             b = (second, pv.scaffold_rows("fasta", second, (big,), (), (1,)))
             inp = [a, b]
             if tiny:
@@ -210,14 +211,17 @@ class C09(Check):
                     break_after_first = False
                     if break_after_first:
                         break
-        # scaffolds absent from the map
+        # sequence absent from the map: whole scaffolds, and contigs of a mapped scaffold that no bait touches
+        covered = {}
+        for _, pieces in pvspec[1]:
+            for src, s, e, _o, _t in pieces:
+                covered.setdefault(src, []).append((s, e))
         for name, rows in inp:
-            if name in mapped:
-                continue
             h = name_hap(name)
             allowed = {"Contaminant"} if target_mode else {("hap", h) if h else ("primary",)}
-            for r in rows:
-                if r[0] != "F":
+            spans = pv.contig_spans(rows)
+            for a, b, r in spans:
+                if any(s <= b and e >= a for s, e in covered.get(name, ())):
                     continue
                 locs = where.get((r[1], r[2]), ())
                 if len(locs) != 1:
@@ -228,7 +232,7 @@ class C09(Check):
                 if got != ("primary",):
                     nonprimary = True
                 if got not in allowed:
-                    ctx.violation("absent-scaffold-misrouted", case, f"{name} absent from the map: in assembly {locs[0][0]!r}, expected {sorted(map(str, allowed))}")
+                    ctx.violation("absent-scaffold-misrouted", case, f"{name}:{r[2]}-{r[3]} absent from the map: in assembly {locs[0][0]!r}, expected {sorted(map(str, allowed))}")
                     return
         for lc, keys in hap_keys.items():
             if len(keys) > 1:
